@@ -77,6 +77,7 @@ def scenario(c, inst):
             y0 = flat(c, log["y0"])
             c.check("c03.first_state_is_y0", c.all([c.eq(u, v) for u, v in zip(flat(c, a.y[0]), y0)]))
             spans.segment_checks(c, "c03", a, 0, t0, tf)
+            spans.pairing_checks(c, "c03", a, cb)
             return
         # several integrate(t) calls: targets are arbitrary reals within reach
         T1 = c.real("T1")
@@ -116,5 +117,6 @@ def scenario(c, inst):
             else:
                 c.check("c03.call%d.status_completed" % k, spans.status_ok(a))
                 spans.segment_checks(c, "c03.call%d" % k, a, n_before - 1, cur, target)
+                spans.pairing_checks(c, "c03.call%d" % k, a, cb)
             cur = a.t[-1]
         c.note("n_rows", len(a.t))
